@@ -103,6 +103,7 @@ def rule_comp(R):
                  "a release entry is removed only in the PUBCOMP arm, by that PUBCOMP's identifier (arm %s, id %s)"
                  % (arms, show(idt)), where=c.span)
     R.exact("comp/caller", ncall, 1, "call sites of the release removal")
+    outq.clause_removal_index(R, "comp/removes-the-acknowledged-entry", rem, "pending_release")
 
 
 def rule_order(R):
